@@ -38,7 +38,8 @@ func init() {
 	modes["auth"] = hAuth
 }
 
-const (
+// the configured tokens of the current round (the thorough tier runs several sets)
+var (
 	tabTok = "tabl3s-Secret"
 	mntTok = "m41ntenance.Secret"
 )
@@ -56,6 +57,9 @@ func mdCtx(values []string) (context.Context, context.CancelFunc) {
 }
 
 func variants(right, other string) [][]string {
+	if right == "" {
+		right = "x" // nothing is configured: every shape must pass
+	}
 	up := strings.ToUpper(right)
 	return [][]string{
 		nil, {""}, {"Bearer " + right}, {"bearer " + right}, {"BEARER " + right}, {"BeArEr " + right},
@@ -223,6 +227,19 @@ func (e *authEnv) fill() {
 func hAuth(dir string) {
 	out := NewOut(dir)
 	defer out.Close()
+	sets := [][2]string{{"tabl3s-Secret", "m41ntenance.Secret"}}
+	if envInt("VERIF_N", 1) > 0 {
+		// tokens with a space inside, with separators, one a prefix of the other, one empty (= unprotected)
+		sets = append(sets, [2]string{"two words", "p@ss:w0rd/=+"}, [2]string{"abc", "abcd"}, [2]string{"", "only-maintenance"})
+	}
+	for _, ts := range sets {
+		tabTok, mntTok = ts[0], ts[1]
+		authRound(out)
+	}
+	hTLS(out)
+}
+
+func authRound(out *Out) {
 	tokCtx := func(ctx context.Context) context.Context {
 		return metadata.AppendToOutgoingContext(ctx, "authorization", "Bearer "+tabTok)
 	}
@@ -298,7 +315,6 @@ func hAuth(dir string) {
 	} else {
 		out.Line("alive", "DIED")
 	}
-	hTLS(out)
 }
 
 // ---- TLS ----
